@@ -20,6 +20,9 @@ def one(name):
         meta["applies_to_current_head"] = True
         meta["checks"] = lines
         meta["fired"] = [l.split()[0] for l in lines if " FIRED " in l]
+    needs = json.load(open(os.path.join(V, "tools", "seed_needs.json"))) if os.path.exists(os.path.join(V, "tools", "seed_needs.json")) else {}
+    if not meta.get("needs") and name in needs:
+        meta["needs"] = needs[name]
     json.dump(meta, open(mp, "w"), indent=1)
     subprocess.run(["git", "-C", "/repo", "worktree", "remove", "--force", "/tmp/seed/_apply_" + name], capture_output=True)
     subprocess.run(["rm", "-rf", "/tmp/seed/_verif_" + name])
